@@ -403,4 +403,7 @@ def check(run, prog):
         ok = ds is not None and ds[1] == lo and ds[2] == hi and ds[3] == NONE_S
         ck.same("R3", fi.where, tag, "the crop keeps [max ceil(s+), N + min floor(s-)) and never a negative bound",
                 ok, found=str(ds[1:4]) if ds else str(out.attrs["_data"])[:120], expected=f"[{lo}:{hi}]", nontrivial=True)
+    # the FFT routines work on (views of) the caller's data: they must never be given permission to overwrite their operand
+    from ..structural import overwrite_report
+    overwrite_report(ck, prog, "R1")
     run.extra["decided_by"] = ck.how
